@@ -235,6 +235,9 @@ func (bf *boundsFn) classifyLoop(li *loopInfo) (string, string) {
 			if !li.body[H.Preds[i]] {
 				continue
 			}
+			if bf.B.strictSuffixCall(e, phi) {
+				continue
+			}
 			sl, ok := e.(*ssa.Slice)
 			if !ok || sl.X != ssa.Value(phi) || sl.Low == nil {
 				shrinks = false
@@ -435,4 +438,64 @@ func leadsOut(b *ssa.BasicBlock, li *loopInfo) bool {
 		return true
 	}
 	return dfs(b)
+}
+
+// strictSuffixCall: e is (a result of) a call f(…, of, …) to a write-free
+// internal function every return of which gives, at that result position,
+// nil or param[lo:] with lo ≥ 1 — a value strictly shorter than a non-empty
+// argument.
+func (B *Bounds) strictSuffixCall(e ssa.Value, of ssa.Value) bool {
+	idx := 0
+	var call *ssa.Call
+	switch x := e.(type) {
+	case *ssa.Extract:
+		call, _ = x.Tuple.(*ssa.Call)
+		idx = x.Index
+	case *ssa.Call:
+		call = x
+	}
+	if call == nil {
+		return false
+	}
+	callee := call.Call.StaticCallee()
+	if callee == nil || callee.Blocks == nil || call.Call.IsInvoke() || !B.writeFree(callee) {
+		return false
+	}
+	pi := -1
+	for i, a := range call.Call.Args {
+		if a == of {
+			if pi >= 0 {
+				return false
+			}
+			pi = i
+		}
+	}
+	if pi < 0 || pi >= len(callee.Params) {
+		return false
+	}
+	cf := B.of(callee)
+	n := 0
+	for _, b := range callee.Blocks {
+		ret, ok := b.Instrs[len(b.Instrs)-1].(*ssa.Return)
+		if !ok {
+			continue
+		}
+		if idx >= len(ret.Results) {
+			return false
+		}
+		n++
+		switch r := ret.Results[idx].(type) {
+		case *ssa.Const:
+			if r.Value != nil {
+				return false
+			}
+		case *ssa.Slice:
+			if r.X != ssa.Value(callee.Params[pi]) || r.Low == nil || !cf.prove(cf.affOf(r.Low).add(affConst(1), -1), b) {
+				return false
+			}
+		default:
+			return false
+		}
+	}
+	return n > 0
 }
